@@ -221,19 +221,19 @@ def work_names(job: Tuple[Case, str]) -> Dict[str, Any]:
                 ch = chain + [d.name]
                 if all(_letters_only(n) for n in ch):
                     flat, us = "".join(ch), _upper_snake(ch)
-                    need("c:h", rf"\bstruct {P}{flat} \{{", f"struct {P}{flat}")
-                    need("c-O:h", rf"\bstruct {P}{flat} \{{", f"struct {P}{flat}")
+                    need("c:h", rf"\bstruct\s+{P}{flat}\s*\{{", f"struct {P}{flat}")
+                    need("c-O:h", rf"\bstruct\s+{P}{flat}\s*\{{", f"struct {P}{flat}")
                     for fn in ("Encode", "Decode"):
-                        need("c:h", rf"\b{fn}{P}{flat}\(", f"{fn}{P}{flat}()")
-                        need("c-O:h", rf"\b{fn}{P}{flat}\(", f"{fn}{P}{flat}()")
-                    need("c:h", rf"\bJson{P}{flat}\(", f"Json{P}{flat}()")
-                    need("c:h", rf"#define BYTES_LENGTH_{PU}{us} \d+", f"BYTES_LENGTH_{PU}{us}")
-                    need("py", rf"(?m)^class {'_'.join(ch)}\(", f"class {'_'.join(ch)}")
-                    need("go", rf"(?m)^type {flat} struct", f"type {flat} struct")
+                        need("c:h", rf"\b{fn}{P}{flat}\s*\(", f"{fn}{P}{flat}()")
+                        need("c-O:h", rf"\b{fn}{P}{flat}\s*\(", f"{fn}{P}{flat}()")
+                    need("c:h", rf"\bJson{P}{flat}\s*\(", f"Json{P}{flat}()")
+                    need("c:h", rf"#\s*define\s+BYTES_LENGTH_{PU}{us}\s+\(?\d+", f"BYTES_LENGTH_{PU}{us}")
+                    need("py", rf"(?m)^class\s+{'_'.join(ch)}\s*[\(:]", f"class {'_'.join(ch)}")
+                    need("go", rf"(?m)^type\s+{flat}\s+struct", f"type {flat} struct")
                     need("go", rf"\bBYTES_LENGTH_{us}\b", f"BYTES_LENGTH_{us}")
                     for f in d.fields:
                         if _re.fullmatch(r"[a-z][a-z_]*[a-z]|[a-z]", f.name):
-                            need("go", rf'json:"{f.name}"', f'JSON tag "{f.name}" in {flat}')
+                            need("go", rf'json:"{f.name}[",]', f'JSON tag "{f.name}" in {flat}')
                 walk(d.nested, ch)
             elif isinstance(d, SEnum):
                 if all(_letters_only(n) for n in chain + [d.name]):
@@ -241,7 +241,7 @@ def work_names(job: Tuple[Case, str]) -> Dict[str, Any]:
                         if not _re.fullmatch(r"[A-Z]+(_[A-Z]+)*", mname):
                             continue
                         full = (_upper_snake(chain) + "_" if chain else "") + mname
-                        need("c:h", rf"#define {PU}{full} \d+", f"enum member macro {PU}{full}")
+                        need("c:h", rf"#\s*define\s+{PU}{full}\s+\(?\d+", f"enum member macro {PU}{full}")
                         need("go", rf"\b{full}\b", f"enum member {full}")
                         need("py", rf"\b{full}\b", f"enum member {full}")
 
